@@ -282,7 +282,9 @@ def run_check(args):
                               "failures": len(native_fail),
                               "per_function": {k: {kk: v[kk] for kk in ("evaluations", "skipped_pre", "distinct", "noteval")}
                                                for k, v in (native or {}).items()}},
-        "explanation": claimed.get("explanation", ""),
+        "explanation": _explanation(prop, args.tier, root, claimed, len(functions), total, discharged, len(failed),
+                                    len(unknown), n_known, canary_total, backends, solver_s, native_evals,
+                                    native_distinct, len(trusted)),
         "known_findings_reported": [kf.get("id") for kf, _ in known],
     }
     if native_evals > 0:
@@ -338,6 +340,36 @@ def run_check(args):
         print("NOTE: %d seeded mutants survive (contract-strength gap, not a violation): %s"
               % (len(mutant_report["survivors"]), mutant_report["survivors"]))
     return EXIT_OK
+
+
+def _explanation(prop, tier, root, claimed, nfun, total, discharged, nfailed, nunknown, nknown, ncanary, backends,
+                 solver_s, native_evals, native_distinct, ntrusted):
+    """What this run covered, in words; every number is measured on this run.  Required (non-empty) for the
+    level `other`, written for every level."""
+    level = claimed.get("level", "proof")
+    parts = [
+        "This run (%s tier) re-parsed %d function(s) under contract from %s and generated %d proof obligation(s) "
+        "from their current source: %d discharged (%s; %.1f s solver time), %d refuted with a counter-model, "
+        "%d undecided, %d attributed to a recorded known finding; %d canary obligation(s) (`ensures False` on each "
+        "normal-return path) were each required to fail; %d assumed (unverified) dependency contract(s)."
+        % (tier, nfun, root, total, discharged,
+           ", ".join("%s: %d" % (k, v) for k, v in sorted(backends.items())) or "no back end used",
+           solver_s, nfailed, nunknown, nknown, ncanary, ntrusted)]
+    if native_evals:
+        parts.append("The executable contract clauses were also evaluated natively on the real functions: %d "
+                     "evaluations over %d distinct inputs satisfying the pre-conditions." % (native_evals, native_distinct))
+    else:
+        parts.append("No native cross-check evaluations ran for this property (contracts not executable on concrete "
+                     "objects or no input pool registered); the deductive obligations are the whole decision.")
+    if claimed.get("text"):
+        parts.append("Claim decided by these obligations: " + claimed["text"])
+    if level == "other":
+        parts.append("Level is `other` rather than `proof` because the obligations cover only part of the property "
+                     "or rest on stated structural assumptions / opaque callees: "
+                     + (claimed.get("note") or "see MANIFEST level_note and the assumptions list."))
+    elif claimed.get("note"):
+        parts.append("Limits: " + claimed["note"])
+    return " ".join(parts)
 
 
 def _claimed_level(prop):
